@@ -778,3 +778,44 @@ func subParserInheritsFS(c *Ctx, r *Report, rule string) {
 		r.cerr(rule, "NewZoneParser", "no sub-parser construction found in a ZoneParser method")
 	}
 }
+
+// trimNeverEmpty (F80): where dnsutil.TrimDomainName returns its first argument without its last octet, the argument
+// is known not to be "." (the root under the root origin is the apex, "@": AddOrigin("@", ".") is ".", and the function
+// documents that it never returns the empty string).
+func trimNeverEmpty(c *Ctx, r *Report, rule string) {
+	r.rule(rule, 1, "dnsutil.TrimDomainName cuts the final dot off its argument only where the argument is not the root")
+	fn := c.ssaFuncIn("dnsutil", "TrimDomainName")
+	if fn == nil || len(fn.Params) < 2 {
+		r.cerr(rule, "TrimDomainName", "function not found")
+		return
+	}
+	r.fn(fnDisplay(fn))
+	s := fn.Params[0]
+	notRoot := Guard{Name: `s != "."`, Op: "eq", A: isValue(s), B: func(v ssa.Value) bool {
+		k, ok := v.(*ssa.Const)
+		return ok && k.Value != nil && k.Value.Kind() == constant.String && constant.StringVal(k.Value) == "."
+	}, Holds: false}
+	n := 0
+	var bad []string
+	for _, rp := range returnPoints(fn, 0) {
+		sl, ok := rp.Results[0].(*ssa.Slice)
+		if !ok || sl.X != ssa.Value(s) || sl.High == nil {
+			continue
+		}
+		hi, ok := sl.High.(*ssa.BinOp)
+		if !ok || hi.Op != token.SUB {
+			continue
+		}
+		if k, isK := constIntOf(hi.Y); !isK || k != 1 {
+			continue
+		}
+		if cl, isCall := hi.X.(*ssa.Call); !isCall || calleeNameSSA(&cl.Call) != "builtin.len" || cl.Call.Args[0] != ssa.Value(s) {
+			continue
+		}
+		n++
+		if miss := guardsMissingFacts(fn, rp.factsOf(fn), []Guard{notRoot}); len(miss) > 0 {
+			bad = append(bad, c.pos(rp.Pos))
+		}
+	}
+	r.check(n > 0 && len(bad) == 0, rule, "TrimDomainName", c.pos(fn.Pos()), fmt.Sprintf("%d return(s) of s[:len(s)-1], each with s != \".\"", n), "the return at %s hands out s without its last octet where s can be \".\": TrimDomainName(\".\", \".\") is the empty string, not \"@\" - AddOrigin and TrimDomainName are not inverse for the apex under the root origin", strings.Join(bad, ", "))
+}
